@@ -31,7 +31,7 @@ FINDINGS = {
     'intlike-expands-exponent': 'int/floor/ceil/round materialise every integer digit of a Decimal with a large positive exponent',
     'compound-multiply-native': '*= uses the native operator: host ints multiply at full width, strings and lists are repeated',
 }
-CASE_DEADLINE = 6
+CASE_DEADLINE = 15
 NUMERIC = (int, float, Decimal)
 NUM_BUILTINS = ['int', 'float', 'round', 'floor', 'ceil', 'abs', 'sum', 'min', 'max']
 
@@ -135,6 +135,8 @@ class Watch:
                 self.judged += 1
                 ctx.count('mul_pow_numeric_judged')
                 if exc is not None:
+                    if not isinstance(exc, Exception):
+                        return          # the harness's own per-case deadline (a BaseException) passing through the node: nothing to judge
                     if not isinstance(exc, ArithmeticError):
                         ctx.violation('%s on numbers raised %s (not an arithmetic error)' % (where, type(exc).__name__), self.case,
                                       finding=finding, detail={'operands': [repr(a)[:80], repr(b)[:80]], 'error': str(exc)[:200]})
